@@ -54,6 +54,11 @@ pub enum Step {
 #[derive(Clone, Debug, Serialize, Deserialize)]
 pub struct LeakCase {
     pub steps: Vec<Step>,
+    /// pipe2() is unavailable (ENOSYS) for the whole history while pipe() works: a
+    /// launch may then fail with that error, or make do without pipe2 - in which case
+    /// the children's tables have to be as clean as ever
+    #[serde(default)]
+    pub no_pipe2: bool,
 }
 
 #[derive(Clone, Copy, Debug, PartialEq, Serialize, Deserialize)]
@@ -305,6 +310,12 @@ fn refresh_registry(w: &mut World, from: usize) -> usize {
 }
 
 pub fn check_history(ctx: &Ctx, case: &LeakCase, rep: &mut CaseReport) -> CaseResult {
+    let r = check_history_inner(ctx, case, rep);
+    ip::PIPE2_ENOSYS.store(false, SeqCst);
+    r
+}
+
+fn check_history_inner(ctx: &Ctx, case: &LeakCase, rep: &mut CaseReport) -> CaseResult {
     reap_all();
     let fail = |kind: &str, context: &str, msg: String| Err(Fail::new(format!("C08:{}:{}", context, kind), format!("{}\ncase={:?}", msg, case)));
     ip::pipes_reset();
@@ -319,6 +330,7 @@ pub fn check_history(ctx: &Ctx, case: &LeakCase, rep: &mut CaseReport) -> CaseRe
     let mut contexts: BTreeSet<&'static str> = BTreeSet::new();
     let mut max_alive_with_pipe = 0usize;
     let mut result: CaseResult = Ok(());
+    ip::PIPE2_ENOSYS.store(case.no_pipe2, SeqCst);
     'steps: for step in &case.steps {
         let before_children: BTreeSet<i32> = hang::my_children().into_iter().collect();
         let snap_before = ip::pipes_snapshot().len();
@@ -550,7 +562,14 @@ pub fn check_history(ctx: &Ctx, case: &LeakCase, rep: &mut CaseReport) -> CaseRe
             }
             Step::SpawnToUserPipe(rc) => {
                 context = "user-pipe";
-                let (r, wr) = subprocess::make_pipe().unwrap();
+                let (r, wr) = match subprocess::make_pipe() {
+                    Ok(x) => x,
+                    Err(e) => {
+                        // (no pipe2: the crate's own pipe constructor may refuse)
+                        result = fail("spawn-error", context, e.to_string());
+                        break 'steps;
+                    }
+                };
                 let wr_ino = fd_ident(wr.as_raw_fd()).1;
                 let cfg = if *rc {
                     let rcw = std::rc::Rc::new(wr);
@@ -662,6 +681,15 @@ pub fn check_history(ctx: &Ctx, case: &LeakCase, rep: &mut CaseReport) -> CaseRe
         }
     }
     ip::PIPE_REG_ON.store(false, SeqCst);
+    ip::PIPE2_ENOSYS.store(false, SeqCst);
+    if case.no_pipe2 {
+        // giving up with ENOSYS is a legitimate answer to a missing pipe2()
+        if let Err(f) = &result {
+            if f.signature.ends_with(":spawn-error") && (f.detail.contains("os error 38") || f.detail.contains("not implemented")) {
+                result = Ok(());
+            }
+        }
+    }
     // cleanup
     hang::kill_children();
     for mut p in live.drain(..) {
@@ -759,6 +787,7 @@ struct ThreadResult {
 
 pub fn check_concurrent(ctx: &Ctx, case: &ConcCase, rep: &mut CaseReport) -> CaseResult {
     let _ = ctx;
+    ip::PIPE2_ENOSYS.store(false, SeqCst);
     reap_all();
     let nt = case.threads.len().clamp(2, 3);
     let fail = |kind: &str, msg: String| Err(Fail::new(format!("C08:concurrent:{}", kind), format!("{}\ncase={:?}", msg, case)));
@@ -1019,7 +1048,7 @@ pub fn history_strategy() -> impl Strategy<Value = LeakCase> {
         1 => Just(Step::SpawnBusyText),
         2 => (1u8..8, any::<bool>(), any::<bool>()).prop_map(|(m, a, b)| Step::DaemonPair(m, a, b)),
     ];
-    prop::collection::vec(step, 1..13).prop_map(|steps| LeakCase { steps })
+    (prop::collection::vec(step, 1..13), prop_oneof![7 => Just(false), 1 => Just(true)]).prop_map(|(steps, no_pipe2)| LeakCase { steps, no_pipe2 })
 }
 
 pub fn conc_strategy() -> impl Strategy<Value = ConcCase> {
